@@ -581,6 +581,9 @@ impl<'tcx> Extract<'tcx> {
                 ("def", s(self.path(*d))),
                 ("args", J::Arr(args.iter().map(|a| s(pp!(format!("{}", a)))).collect())),
             ];
+            if matches!(tcx.def_kind(*d), DefKind::Fn | DefKind::AssocFn) {
+                kv.push(("unsafe", J::Bool(tcx.fn_sig(*d).skip_binder().safety().is_unsafe())));
+            }
             let env = TypingEnv::post_analysis(tcx, owner);
             if let Some(args) = tcx.try_normalize_erasing_regions(env, ty::Unnormalized::new_wip(*args)).ok() {
                 if let Ok(Some(inst)) = Instance::try_resolve(tcx, env, *d, args) {
